@@ -122,6 +122,7 @@ def rank_program(plan: dict[str, Any], sim: core.Sim, mode: str) -> Any:
             for cid, r in pending:
                 v = r.wait() if isinstance(r, kd.Future) else r
                 out[cid]['value'] = v.detach().clone()
+                out[cid]['held'] = v  # the caller keeps the result around
                 out[cid]['was_future'] = isinstance(r, kd.Future)
                 out[cid]['contig'] = v.is_contiguous()
             pending.clear()
@@ -169,6 +170,12 @@ def rank_program(plan: dict[str, Any], sim: core.Sim, mode: str) -> Any:
         tdc.flush_allreduce_buckets()
         n1 = sum(1 for e in sim.log if len(e) > 8 and e[1] == rank)
         settle()
+        for rec in out:
+            if 'held' in rec:
+                h = rec.pop('held')
+                rec['stable'] = bool(
+                    h.shape == rec['value'].shape and torch.equal(
+                        h, rec['value']))
         return {'calls': out, 'final_second_flush_posts': n1 - n0}
 
     return prog
@@ -271,6 +278,9 @@ def check(plan: dict[str, Any], res: dict[str, Any], mode: str,
             want = expected(plan, call, cid, rank)
             got = rec.get('value')
             stats['values_checked'] += 1
+            if rec.get('stable') is False:
+                bad('C08.result_changed_after_resolution', rank=rank,
+                    cid=cid, call=call, mode=mode)
             if got is None or not _same(got, want.to(got.dtype)) or \
                     got.dtype != DTYPES[call['dtype']] or \
                     tuple(got.shape) != tuple(call['shape']):
@@ -393,6 +403,13 @@ def gen_comm_plan(rng: random.Random, *, tier: str, symmetric_only: bool,
         5, 14)
     calls: list[dict[str, Any]] = []
     sizes = []
+    # a quarter of the plans hammer one (group, flags) combination so that
+    # consecutive multi-tensor buckets of one group and several fill/flush
+    # cycles over the same buckets are common, not rare
+    focus = None
+    if not symmetric_only and rng.random() < 0.25:
+        focus = {'group': rng.choice(['world', 'world', 'row', 'col']),
+                 'average': rng.random() < 0.4, 'symmetric': False}
     for _ in range(n_calls):
         r = rng.random()
         if r < 0.18 and calls:
@@ -434,8 +451,13 @@ def gen_comm_plan(rng: random.Random, *, tier: str, symmetric_only: bool,
             'src_pos': rng.randint(0, 7),
             'noncontig': rng.random() < 0.3,
         }
+        if focus is not None and rng.random() < 0.85:
+            call.update(focus, kind='allreduce_bucketed', dtype=dtype,
+                        symmetric_data=False)
+            if len(call['shape']) == 2 and rng.random() < 0.5:
+                call['shape'] = [rng.randint(1, 12)]
         calls.append(call)
-        sizes.append(packed_numel(call) * ELSIZE[dt])
+        sizes.append(packed_numel(call) * ELSIZE[call['dtype']])
     sizes = sorted(sizes) or [4]
     cap_bytes = rng.choice([
         0, max(1, sizes[0] - 1), sizes[len(sizes) // 2],
